@@ -51,6 +51,7 @@ struct Gen {
 	std::vector<double> delay_w;              // owner reply delay classes
 	std::string profile;
 	double p_adv_rule = 0;                    // c16: adversarial rule shapes (refused ones included)
+	double p_conn_fault = 0;                  // a new connection that cannot be configured or registered (failing fcntl/setsockopt/epoll_ctl): it must cost nothing but itself
 	double p_fat = 0;                         // heap-cap runs: values that cost the daemon kilobytes (arrays of many small numbers)
 
 	explicit Gen(uint64_t seed) : r(seed) {}
@@ -206,6 +207,11 @@ struct Gen {
 		if (r.chance(0.1)) pol.set("forge", JV::boolean(true));
 		o.a.set("policy", pol);
 		if (r.chance(0.3)) o.a.set("rdcap", JV::num((double)(1 + r.below(r.chance(0.5) ? 7 : 64))));
+		if (p_conn_fault > 0 && r.chance(p_conn_fault)) {
+			if (r.chance(0.5)) o.a.set("epolladd", JV::num(r.chance(0.6) ? 28 : 12));
+			else { JV cf = JV::obj(); cf.set("n", JV::num((double)(1 + r.below(8)))); static const int er[] = {105, 12, 22, 92}; cf.set("errno", JV::num(er[r.below(4)])); o.a.set("cfgfail", cf); }
+			g.alive = false;   // never served: the plan sends nothing on it
+		}
 		if (g.tr == "ws") { JV s = seg_for(200); if (s.t != JV::Null) o.a.set("seg", s); if (r.chance(0.5)) o.a.set("key", JV::str(b64(std::string("0123456789abcde") + (char)('a' + r.below(26))))); }
 		o.dt = pick_dt(); o.hold = r.chance(p_hold);
 		p.ops.push_back(o); cl.push_back(g);
@@ -543,6 +549,7 @@ Plan gen_base(const std::string &profile, uint64_t seed, const JV &opts) {
 	int nops = r.chance(0.5) ? 4 + (int)r.below(9) : 10 + (int)r.below(r.chance(0.2) ? 150 : 40);
 	int nclients = 2 + (int)r.below(4);
 	if (profile == "c04") h.set("observer", JV::boolean(true));
+	if (profile == "c11" || profile == "c11x" || profile == "c07") g.p_conn_fault = 0.06;
 	if (profile == "c15h") {
 		// ordinary client activity that reaches the configured heap cap (meant for the heapcap variant): the first refusal is handled like an injected failure
 		for (int i = 0; i < 12; i++) g.paths.push_back("fat/" + std::to_string(i));
@@ -829,6 +836,7 @@ Plan gen_hostile(const std::string &profile, uint64_t seed, const JV &opts) {
 		if (r.chance(0.4)) o.a.set("rdcap", JV::num((double)(1 + r.below(r.chance(0.5) ? 5 : 80))));
 		if (kd != 0) o.a.set("noexpect", JV::boolean(true));
 		if (kd == 2) o.a.set("nohs", JV::boolean(true));
+		if (r.chance(0.06)) o.a.set("epolladd", JV::num(r.chance(0.6) ? 28 : 12));   // the event loop cannot take the new connection (ENOSPC / ENOMEM from epoll_ctl)
 		if (r.chance(0.06)) { JV cf = JV::obj(); cf.set("n", JV::num((double)(1 + r.below(8)))); static const int er[] = {105, 12, 22, 92, 9}; cf.set("errno", JV::num(er[r.below(4)])); o.a.set("cfgfail", cf); }   // one of the calls that configure the accepted socket fails
 		o.dt = g.pick_dt(); o.hold = r.chance(g.p_hold);
 		g.p.ops.push_back(o); g.cl.push_back(gc);
